@@ -15,8 +15,9 @@ P("C23",
              "moves between the two sides with ranges inside the memories and memories that answer exactly the requests they were "
              "sent: c23_copy_exact (when an acknowledgment is sent the destination range holds exactly the bytes of the source "
              "range, for every order in which the memories answer) and c23_source_stable (the source memory is not written while "
-             "the move is in progress, so these are the bytes held at acceptance). c23_unaligned_size_refuted and "
-             "c23_small_buffer_refuted are the confirmed defects. Model and implementation are compared exactly: every helper "
+             "the move is in progress, so these are the bytes held at acceptance). c23_unaligned_size_refuted, "
+             "c23_small_buffer_refuted and c23_same_side_overlap_refuted (same-side move onto an overlapping range: smeared copy, "
+             "F-C23-3) are the confirmed defects; same-side moves with disjoint ranges are covered by the tie only. Model and implementation are compared exactly: every helper "
              "result (incl. panics), and per tick all drained requests with their generated IDs, acknowledgments, progress and "
              "active flags, the memory images at every acknowledgment and at the end.",
   level_note="Trusted: Coq kernel + vm_compute; the Go harness (scripted memories, verif export wrappers that only convert types); "
